@@ -52,7 +52,10 @@ func setup() error {
 	return ferr
 }
 
-var pieces = []string{"Hello", "fi", "ffl", "AVATAR", "To Wa", "0123456789", "54321", "24680", "11111", "x", " ", "  ", "(a)", "é", "Ünï", "q̣", "x̂́", "é", "αβγ", "Жук", "—", "“q”", "%&$", "Tj", "Ty.", "office", " ", "€", "ﬁ", "W", "iiii", "MMMM", "a-b", "T​z"}
+var pieces = []string{"Hello", "fi", "ffl", "AVATAR", "To Wa", "0123456789", "54321", "24680", "11111", "x", " ", "  ", "(a)", "é", "Ünï", "q̣", "x̂́", "é", "αβγ", "Жук", "—", "“q”", "%&$", "Tj", "Ty.", "office", " ", "€", "ﬁ", "W", "iiii", "MMMM", "a-b", "T​z",
+	// every printable ASCII character: more than 92 distinct glyphs of one font in a document (the subsetter hands out the
+	// two-byte codes in order of first appearance, so the codes reach 0x5C, the backslash, and beyond)
+	" !\"#$%&'()*+,-./0123456789:;<=>?@ABCDEFGHIJKLMNOPQRSTUVWXYZ[\\]^_`abcdefghijklmnopqrstuvwxyz{|}~"}
 
 func genText(t *rapid.T, label string, max int) string {
 	n := rapid.IntRange(1, max).Draw(t, label+"n")
